@@ -270,30 +270,7 @@ def run(cx: Cx):
               where=cx.where(add, e.line), function=add.qualname, path=pl, kind=e.data.get('store'))
     cx.floor('add_system success paths', n_success, 1)
 
-    # ------------------------------------------------------------ clause 5b: remove_system pairing
-    sid = Sym(rem.params[1]) if len(rem.params) > 1 else None
-    rself = rem.params[0]
-    RQ, RREG = queue_term(rself), Attr(Sym(rself), 'systems')
-    n_rs = 0
-    for p in cx.walker.paths(rem, WalkOptions(unroll=1)):
-        if p.end == 'raise':
-            continue
-        n_rs += 1
-        qs = [e for e in p.events if e.kind == 'store' and e.data.get('loc') == QLOC]
-        rs = [e for e in p.events if e.kind == 'store' and e.data.get('loc') == RLOC]
-        okq = len(qs) == 1 and qs[0].data.get('store') in REMOVALS and \
-            _denotes_registered(qs[0].data.get('key'), RREG, sid, p)
-        okr = len(rs) == 1 and rs[0].data.get('store') in ('delitem', 'pop') and rs[0].data.get('key') == sid
-        if okq and okr:
-            cx.ok('R-PAIR', 'remove_system: queue removal paired with registry delete', where=cx.where(rem, qs[0].line),
-                  function=rem.qualname, path=p.lines())
-        else:
-            cx.violation('R-PAIR', rem.qualname, 'queue-removal-paired-with-registry-delete',
-                         f"remove_system: a success path must remove the registered system from the queue and delete its "
-                         f"registry entry, each exactly once; queue writes={[(e.data.get('store'), repr(e.data.get('key'))) for e in qs]}"
-                         f" registry writes={[(e.data.get('store'), repr(e.data.get('key'))) for e in rs]}",
-                         where=cx.where(rem), path=p.lines())
-    cx.floor('remove_system success paths', n_rs, 1)
+    check_remove_pairing(cx)
 
     # registry discipline package-wide
     rsites = cx.effects.sites_of(RLOC)
@@ -320,9 +297,10 @@ def run(cx: Cx):
                 cx.violation('R-ITER', fn.qualname, 'execute-inside-queue-loop',
                              "execute_systems calls System.execute outside a loop over the queue", where=cx.where(fn, site.ev.line))
                 continue
-            if site.loop_id in seen_loops:
-                continue
             it = site.loop_ev.data.get('iter')
+            sig = (site.loop_id, repr(strip_versions(it)))
+            if sig in seen_loops:
+                continue
             info = site.iter_ev.data['info']
             kind = classify_iterable(it, SQ) if info.get('kind') == 'iter' else None
             recv_ok = info.get('kind') == 'iter' and site.recv == info.get('var')
@@ -330,10 +308,15 @@ def run(cx: Cx):
                 shp = _scan_shape_ok(info, SQ)
                 recv_ok = shp is True and strip_versions(site.recv) == Sub(SQ, info['index'])
                 kind = 'live' if recv_ok else 'other'
-            seen_loops[site.loop_id] = kind
+            seen_loops[sig] = kind
             if kind in ('live', 'copy') and recv_ok:
                 cx.ok('R-ITER', f"scheduler walks the queue front to back ({kind})", where=cx.where(fn, site.loop_ev.line),
                       function=fn.qualname, iterable=repr(it))
+            elif kind == 'stored':
+                cx.violation('R-ITER', fn.qualname, 'scheduler-iterates-a-stored-snapshot',
+                             f"execute_systems iterates {it!r}, a snapshot kept in a field across calls, on a path that does not "
+                             f"rebuild it from the queue: registrations and removals made since it was taken are not honoured (a "
+                             f"re-registered system keeps its old place, a replacement never runs)", where=cx.where(fn, site.loop_ev.line))
             elif kind in ('reversed', 'sorted', 'set'):
                 cx.violation('R-ITER', fn.qualname, f"scheduler-iterates-{kind}",
                              f"execute_systems iterates {it!r}: systems no longer run in queue order", where=cx.where(fn, site.loop_ev.line))
@@ -364,6 +347,36 @@ def run(cx: Cx):
                              f"default collector no longer runs after default systems", where=cx.where(ctor))
         else:
             cx.inconclusive('R-FWD', f"{c} default priority", "default priority is not a constant", where=cx.where(ctor))
+
+
+def check_remove_pairing(cx: Cx):
+    """remove_system: every success path removes the registered object from the queue and deletes its registry entry, each
+    exactly once (so the queue never holds an unregistered system or a second entry of a re-registered one)."""
+    rem = cx.fn(CORE + 'SystemManager.remove_system')
+    sid = Sym(rem.params[1]) if len(rem.params) > 1 else None
+    rself = rem.params[0]
+    RQ, RREG = queue_term(rself), Attr(Sym(rself), 'systems')
+    n_rs = 0
+    for p in cx.walker.paths(rem, WalkOptions(unroll=1)):
+        if p.end == 'raise':
+            continue
+        n_rs += 1
+        qs = [e for e in p.events if e.kind == 'store' and e.data.get('loc') == QLOC]
+        rs = [e for e in p.events if e.kind == 'store' and e.data.get('loc') == RLOC]
+        okq = len(qs) == 1 and qs[0].data.get('store') in REMOVALS and \
+            _denotes_registered(qs[0].data.get('key'), RREG, sid, p)
+        okr = len(rs) == 1 and rs[0].data.get('store') in ('delitem', 'pop') and rs[0].data.get('key') == sid
+        if okq and okr:
+            cx.ok('R-PAIR', 'remove_system: queue removal paired with registry delete', where=cx.where(rem, qs[0].line),
+                  function=rem.qualname, path=p.lines())
+        else:
+            cx.violation('R-PAIR', rem.qualname, 'queue-removal-paired-with-registry-delete',
+                         f"remove_system: a success path must remove the registered system from the queue and delete its "
+                         f"registry entry, each exactly once; queue writes={[(e.data.get('store'), repr(e.data.get('key'))) for e in qs]}"
+                         f" registry writes={[(e.data.get('store'), repr(e.data.get('key'))) for e in rs]}",
+                         where=cx.where(rem), path=p.lines())
+    cx.floor('remove_system success paths', n_rs, 1)
+
 
 
 def _check_next_idiom(cx, add, ps, Q, s_sym):
